@@ -104,8 +104,63 @@ class FileScan(ast.NodeVisitor):
                         walk(getattr(s_, blk, []) or [], "GOtherGuard")
         walk(fn.body, None)
 
+    # ---- draws under a condition that reads the file system ---------------------------------------
+    FS_CALLS = {"os.path.exists", "os.path.isfile", "os.path.isdir", "os.path.lexists", "os.path.getsize",
+                "os.path.getmtime", "os.listdir", "os.scandir", "os.stat", "os.access", "os.walk",
+                "glob.glob", "glob.iglob", "pathlib.Path.exists"}
+    FS_METHODS = {"exists", "is_file", "is_dir", "glob", "rglob", "iterdir", "stat"}
+
+    def fs_read(self, test):
+        for n in ast.walk(test):
+            if isinstance(n, ast.Call):
+                r = self.resolve(n.func) or ""
+                if r in self.FS_CALLS or r.endswith(".path.exists") or r.endswith(".path.isfile") or r.endswith(".path.isdir"):
+                    return r
+                if isinstance(n.func, ast.Attribute) and n.func.attr in self.FS_METHODS and not r.startswith(("numpy", "np.", "torch")):
+                    recv = ast.unparse(n.func.value)
+                    if "path" in recv.lower() or "dir" in recv.lower() or "file" in recv.lower() or "output" in recv.lower():
+                        return recv + "." + n.func.attr
+        return None
+
+    def is_draw(self, node):
+        for n in ast.walk(node):
+            if isinstance(n, ast.Attribute):
+                r = self.resolve(n) or ""
+                if r.startswith("numpy.random.") and r.count(".") == 2:
+                    return ast.unparse(n)
+            if isinstance(n, ast.Call):
+                r = self.resolve(n.func) or ""
+                if r.startswith("torch.") and r.split(".")[-1] in TORCH_FUNCS and r.count(".") <= 2:
+                    return r
+                if isinstance(n.func, ast.Attribute) and (n.func.attr == "rvs" or n.func.attr in TENSOR_INPLACE
+                                                          or n.func.attr in SAMPLE_METHODS):
+                    return ast.unparse(n.func)
+        return None
+
+    def env_guards(self, fn):
+        def exits(stmts):
+            return any(isinstance(n, (ast.Return, ast.Raise, ast.Continue, ast.Break)) for s_ in stmts for n in ast.walk(s_))
+
+        def block(stmts):
+            for i, s_ in enumerate(stmts):
+                if isinstance(s_, (ast.If, ast.While)):
+                    what = self.fs_read(s_.test)
+                    if what:
+                        inner = [self.is_draw(x) for x in list(s_.body) + list(s_.orelse)]
+                        after = [self.is_draw(x) for x in stmts[i + 1:]] if (exits(s_.body) or exits(s_.orelse)) else []
+                        for d in [x for x in inner + after if x][:1]:
+                            self.add("envguard", f"{what} guards {d}", s_)
+                for name in ("body", "orelse", "finalbody"):
+                    sub = getattr(s_, name, None)
+                    if isinstance(sub, list) and sub and isinstance(sub[0], ast.stmt) and not isinstance(s_, (ast.FunctionDef, ast.ClassDef)):
+                        block(sub)
+                for h_ in getattr(s_, "handlers", []) or []:
+                    block(h_.body)
+        block(fn.body)
+
     def visit_FunctionDef(self, node):
         self.stack.append(node.name)
+        self.env_guards(node)
         if node.name == "configure_random_seed":
             self.seed_guards(node)
         self.set_names.append(self.infer_set_names(node))
@@ -350,6 +405,8 @@ def terms_of(entries):
             terms.append(f"EPoolWrite {cstr(site)} {cstr(detail)}")
         elif kind == "seedguard":
             terms.append(f"ESeedGuard {cstr(site)} {detail}")
+        elif kind == "envguard":
+            terms.append(f"EEnvGuardedDraw {cstr(site)} {cstr(detail)}")
         elif kind == "seedcall":
             terms.append(f"ESeedCall {cstr(site)}")
     return terms
